@@ -2,7 +2,7 @@
 # usage: tools/selfcheck.sh [ids...] — what `vp check` does, run in place: setup, then every quick check once with its evidence
 # file removed first; validates MANIFEST.json and every evidence file against the schemas; prints one line per property.
 cd "$(dirname "$0")/.."
-export CARGO_NET_OFFLINE=true GOPROXY=off PIP_NO_INDEX=1 VERIF_SEED=1 VERIF_TIER=quick
+export CARGO_NET_OFFLINE=true GOPROXY=off PIP_NO_INDEX=1 VERIF_SEED=${VERIF_SEED:-1} VERIF_TIER=quick
 ids=${@:-$(python3 -c "import json;print(' '.join(c['property_id'] for c in json.load(open('MANIFEST.json'))['checks']))")}
 t0=$(date +%s); ./setup.sh > work/selfcheck_setup.log 2>&1; echo "setup rc=$? $(( $(date +%s)-t0 ))s"
 for p in $ids; do
